@@ -266,7 +266,6 @@ PROPS["C37"] = {
     "anchors": [("Transducer", "src/policy/compressor/forwarding.rs"), ("visit_mark_bit", "src/policy/compressor/forwarding.rs"),
                 ("encode", "src/policy/compressor/forwarding.rs"), ("decode", "src/policy/compressor/forwarding.rs")],
     "verus": ["compressor_fwd"],
-    "kani": {"prefix": "c37_", "files": ["c37_glue.rs", "vm.rs"], "timeout_quick": 1500, "timeout_thorough": 3600},
     "functions": ["Transducer::{new, visit_mark_bit, encode, decode} (extracted verbatim)",
                   "ForwardingMetadata::{new, calculate_offset_vector, forward, has_calculated_forwarding_addresses} (Kani, bounded: 3-block region prefix, <= 3 objects)", "Address: struct, ZERO, from_usize, as_usize, "
                   "impl Add<ByteSize>, impl Sub<Address> (extracted verbatim, specified through vstd AddSpecImpl/SubSpecImpl)",
@@ -278,19 +277,15 @@ PROPS["C37"] = {
                    "`to` before object n equals region start + total size of the objects before it (lemma_run_prefix); hence forwarding "
                    "addresses are strictly ordered, non-overlapping and never above the original address (theorem_c37). "
                    "lemma_resume_from_block shows that resuming from the state cached at a 512-byte block start (decode(encode(..))) gives "
-                   "the same result, also when the block boundary falls inside an object. Unbounded in the number and size of objects. "
-                   "The metadata glue is covered by a BOUNDED Kani harness on the real ForwardingMetadata::calculate_offset_vector / forward over a region prefix of three "
-                   "512-byte blocks at a symbolic region address with up to three live objects placed symbolically (first/last-word mark bits), including objects spanning a block "
-                   "boundary and covering whole blocks: every object's forwarding address equals region start + total size of the live objects before it, and every offset-vector "
-                   "entry encodes the live bytes before its block (flagged when the block starts inside an object).",
-    "bounds": ["none for the Transducer (Verus)", "glue harness: 3 blocks (1536 bytes), <= 3 objects (Kani, unwind 10)"],
+                   "the same result, also when the block boundary falls inside an object. Unbounded in the number and size of objects.",
+    "bounds": ["none"],
     "assumptions": ["the scanning glue: ForwardingMetadata::calculate_offset_vector/forward feed visit_mark_bit exactly the set mark bits of the "
                     "range in ascending address order (scan_non_zero_values, C22) and the offset vector returns what was stored (C20)",
                     "no-overflow preconditions of visit_mark_bit/encode (to + live bytes <= usize::MAX: addresses inside one region)"],
-    "trusted_base": ["kani::stub of SideMetadataSpec::get_starting_address (each of the two Compressor tables gets its own harness buffer; they are parallel tables 2^41 bytes apart)",
-                     "usize is 64 bits (global size_of usize == 8)", "BYTES_IN_WORD == 8 re-declared in the unit prelude",
+    "trusted_base": ["usize is 64 bits (global size_of usize == 8)", "BYTES_IN_WORD == 8 re-declared in the unit prelude",
                      "vstd AddSpecImpl/SubSpecImpl linking of operator impls", "the extraction rewrite rules listed in the evidence"],
-    "not_covered": ["ForwardingMetadata::{scan_marked_objects, mark_last_word_of_object}", "region prefixes longer than 3 blocks / more than 3 objects for the glue (the transducer itself is unbounded)",
+    "not_covered": ["ForwardingMetadata::{calculate_offset_vector, forward, scan_marked_objects, mark_last_word_of_object} closure glue (three Kani harnesses exist in kani/src/c37_glue.rs "
+                    "as experiments: CBMC times out after 25 minutes on the inlined variants and aborts on the modular one, so they are not part of the check)",
                     "CompressorSpace's use of the forwarding addresses (whole-space)"],
 }
 
@@ -534,7 +529,6 @@ PROPS["C34"] = {
 }
 
 PROPS["C40"] = {
-    "ready": False,
     "level": "other",
     "technique": "Kani bounded proof harness (input length <= 5 quick / 7 thorough) over the real RevisitableGroupBy / RevisitableGroup iterators (CBMC); bounded stand-in, not counted as proved",
     "anchors": [("RevisitableGroupBy", "src/util/rust_util/rev_group.rs"), ("RevisitableGroup", "src/util/rust_util/rev_group.rs"),
